@@ -353,7 +353,33 @@ def check_atom_guards(repo, scratch):
     return res
 
 
-CHECKS = {"atom_guards": check_atom_guards, "cmp_instrs": check_cmp_instrs, "switch_routes": check_switch_routes, "arith_tables": check_arith_tables}
+def check_atom_ord(repo, scratch):
+    """C21/C13: atoms order by their text (code-point sequence), not by table index."""
+    base = "structural::atom_ord::"
+    res = {"obligations": [base + "cmp_by_text"], "failed": [], "undecided": [], "assumptions": ["[structural:atom_ord] str::cmp is byte-wise lexicographic = code-point order for UTF-8 (std)"],
+           "functions": [{"name": "Ord for Atom", "file": "src/atom_table.rs", "engine": "structural", "unit": "atom_ord", "under_contract": True}]}
+    from rustlex import find_fns, find_blocks
+    pa = os.path.join(repo, "src/atom_table.rs")
+    if not os.path.exists(pa):
+        res["undecided"].append(base + ": src/atom_table.rs missing"); return res
+    ta = lex(open(pa, encoding="utf-8").read())
+    blocks = find_blocks(ta, "impl", r"impl Ord for Atom")
+    body = None
+    for b in blocks:
+        for it in find_fns(ta, "cmp", b.body_open, b.body_close):
+            body = _norm(" ".join(x.text for x in _sig(ta[it.body_open:it.body_close + 1])))
+    if body is None:
+        res["undecided"].append(base + "cmp_by_text: impl Ord for Atom not found (lost anchor)")
+    elif body == "{ self . as_str ( ) . cmp ( & * other . as_str ( ) ) }":
+        pass
+    elif re.search(r"\b(index|flat_index)\b", body) and "as_str" not in body:
+        res["failed"].append({"obligation": base + "cmp_by_text", "engine": "structural", "source": "Ord for Atom", "at": "src/atom_table.rs", "message": "atoms are compared by table index, not by text: " + body})
+    else:
+        res["undecided"].append(base + "cmp_by_text: body not recognised: " + body[:120])
+    return res
+
+
+CHECKS = {"atom_ord": check_atom_ord, "atom_guards": check_atom_guards, "cmp_instrs": check_cmp_instrs, "switch_routes": check_switch_routes, "arith_tables": check_arith_tables}
 
 
 def run(names, repo, scratch=None):
